@@ -143,7 +143,13 @@ impl<'a> SectionsBuilder<'a> {
                 }
             }
             _ => {
-                panic!("section block panic for: {:?}", block)
+                // an item that starts with a code block, quote, rule or table has no text of its
+                // own: the block becomes the first child of an item with empty text
+                self.builder.section(vec![]);
+                let id = self.builder.id();
+                self.builder.set_insert(true);
+                self.block(block);
+                self.builder.set_id(id);
             }
         };
     }
